@@ -145,7 +145,6 @@ Section Model.
 Variable list_fixed : bool.
 Variable g : list (list nat * expr).   (* rules: parameter names, body *)
 Variable funs : list (list nat * expr). (* lifted argument functions: free variables (= extra parameters), body *)
-Variable named : bool.                (* _Flags.uses_context *)
 Variable ignored : option nat.        (* index of the synthetic _ignored rule *)
 Variable t : list nat.
 Variable rx : nat -> nat -> option nat.   (* oracle: Pattern.match(text, pos).end() *)
@@ -726,9 +725,10 @@ Fixpoint exec (n : nat) (e : expr) (s : st) : out :=
                            match lookup x (locals s), all l' with Some v, Some r => Some (v :: r) | _, _ => None end end) fv with
                 | None => None                                         (* unbound captured name *)
                 | Some vals =>
-                    (* argumentize: bare function iff len(params) <= 3, else _ParseFunction(func, params[2:], ()) *)
-                    if named then (match fv with [] => Some (VClos fid []) | _ => Some (VClos fid (VInt (pos s) :: vals)) end)
-                    else if Nat.leb (length fv) 1 then Some (VClos fid []) else Some (VClos fid vals)
+                    (* argumentize: the lifted function takes [ctx,] _text, _pos and its sorted free
+                       variables; with no free variable the bare function is passed, otherwise
+                       _ParseFunction(func, <values of the free variables>, ()) *)
+                    Some (VClos fid vals)
                 end
             end in
         let target : option nat :=
